@@ -3390,9 +3390,20 @@ pub fn initialize(env: &mut Env) {
         "≥",
     );
     env.insert_builtin(Divide);
-    env.insert_builtin(TwoNumsToNumsBuiltin {
+    env.insert_builtin(TwoNumsBuiltin {
         name: "%".to_string(),
-        body: |a, b| a % b,
+        body: |a, b| {
+            // integer and rational remainders by zero would panic inside num; at the float and
+            // complex levels the remainder by zero is NaN
+            if b.is_nonzero()
+                || matches!(a, NNum::Float(_) | NNum::Complex(_))
+                || matches!(b, NNum::Float(_) | NNum::Complex(_))
+            {
+                Ok(Obj::Num(a % b))
+            } else {
+                Err(NErr::value_error("division by zero".to_string()))
+            }
+        },
     });
     env.insert_builtin(TwoNumsBuiltin {
         name: "//".to_string(),
